@@ -554,6 +554,7 @@ _RM = lambda k: f"rm(coordinates_residue_map, coordinates, {k})"
 _RI, _RJ = _RM("EN[SRC2[m]][0]"), _RM("EN[SRC2[m]][1]")
 _UI, _UJ = _RM("EN[u][0]"), _RM("EN[u][1]")
 _AM, _BM = "SRC0[EN[SRC2[m]][0]]", "SRC0[EN[SRC2[m]][1]]"
+_AQ, _BQ = _AM.replace("[m]", "[SORTED_PI[q]]"), _BM.replace("[m]", "[SORTED_PI[q]]")
 _LO = lambda m: f"lo_index({_S}, {_AM.replace('[m]', '[' + m + ']')}, {_BM.replace('[m]', '[' + m + ']')})"
 _HI = lambda m: f"hi_index({_S}, {_AM.replace('[m]', '[' + m + ']')}, {_BM.replace('[m]', '[' + m + ']')})"
 
@@ -687,6 +688,15 @@ class find_stackings_c:
                 f"assert forall(lambda q: implies(0 <= q and q < len(stackings), same_ids(stackings[q], {_S}[{_LO('SORTED_PI[q]')}], {_S}[{_HI('SORTED_PI[q]')}])), "
                 f"pats=['stackings[q].topology', 'stackings[q].nt1.label', 'SORTED_PI[q]'])",
                 "assert forall(lambda m: implies(0 <= m and m < len(pairs), rec_of(stackings[SORTED_PINV[m]], pairs[m])), pats=['SORTED_PINV[m]', 'ident(pairs[m][0])'])",
+                # explicit witnesses for the soundness clause
+                f"assert forall(lambda q: implies(0 <= q and q < len(stackings), 0 <= {_AQ} and {_AQ} < {_BQ} and {_BQ} < {_N} and {_EL(_AQ)} and {_EL(_BQ)} "
+                f"and stk({_S}[{_AQ}], {_S}[{_BQ}], EPS) and rec_loose(stackings[q], {_S}[{_AQ}], {_S}[{_BQ}])), "
+                f"pats=['stackings[q].topology', 'stackings[q].nt1.label', 'SORTED_PI[q]'])",
+                # a participating residue carrying the identifiers of a record is the residue the record was built from
+                f"assert forall(lambda q, a: implies(0 <= q and q < len(stackings) and 0 <= a and a < {_N} and {_EL('a')}, "
+                f"implies(stackings[q].nt1.label == {_S}[a].label and stackings[q].nt1.auth == {_S}[a].auth, a == {_LO('SORTED_PI[q]')}) "
+                f"and implies(stackings[q].nt2.label == {_S}[a].label and stackings[q].nt2.auth == {_S}[a].auth, a == {_HI('SORTED_PI[q]')})), "
+                f"pats=[['stackings[q].nt1.label', '{_S}[a].label']])",
                 "assert forall(lambda q, w: implies(0 <= q and q < w and w < len(stackings), "
                 "not (pairs[SORTED_PI[q]][0] == pairs[SORTED_PI[w]][0] and pairs[SORTED_PI[q]][1] == pairs[SORTED_PI[w]][1])), pats=[['SORTED_PI[q]', 'SORTED_PI[w]']])",
                 "assert forall(lambda q, w: implies(0 <= q and q < w and w < len(stackings), "
